@@ -8,7 +8,8 @@
    This file contains only property theorems, each closed by `exact <lemma>` and followed by
    Print Assumptions, and the statements that are not proved (Definition C05_full_...). *)
 From Coq Require Import Permutation.
-From SV Require Import Base.Prelude Model.Mailbox Proof.MailboxFacts Proof.MailboxProof Proof.MailboxInOrder.
+From SV Require Import Base.Prelude Model.Mailbox Proof.MailboxFacts Proof.MailboxProof Proof.MailboxInOrder
+  Proof.MailboxTermination.
 Local Open Scope nat_scope.
 
 (* Every subscriber's delivered sequence is a prefix of the sent messages in number order with futures
@@ -88,17 +89,22 @@ Theorem C05_mailbox_maximal_schedules_deliver :
 Proof. exact maximal_deliver. Qed.
 Print Assumptions C05_mailbox_maximal_schedules_deliver.
 
-(* ---------------- stated, not proved ---------------- *)
-
-(* Termination: no infinite schedule (a measure that decreases with every step).  Together with
-   deadlock freedom: every schedule reaches a state where all threads have finished. *)
-Definition C05_full_mailbox_terminates : Prop :=
+(* Termination: the measure mu (Proof/MailboxTermination.v: weighted ranks of the sender's and the
+   subscribers' program counters, remaining source, unread messages, set woken flags, pending futures)
+   strictly decreases with every step of every thread, so every schedule is at most mu(initial state)
+   steps long: no livelock through spurious wake-ups, no infinite run.  With deadlock freedom: every
+   schedule can be extended, in at most that many steps, to a state where all threads have finished. *)
+Theorem C05_mailbox_terminates :
   forall (cfg : config) (msgs : list msg) (nfut : nat),
     (forall m, In m msgs -> is_stop m = false) ->
-    forall (drives : list bool) (killer : option bool),
-      valid cfg msgs nfut drives ->
-      exists bound, forall sched st,
-        run cfg (init cfg drives (source_of msgs) killer nfut) sched = Some st -> length sched <= bound.
+    forall (drives : list bool) (killer : option bool) (sched : list tid) (st : state),
+      drives <> [] ->
+      run cfg (init cfg drives (source_of msgs) killer nfut) sched = Some st ->
+      length sched + mu msgs st <= mu msgs (init cfg drives (source_of msgs) killer nfut).
+Proof. exact schedules_bounded. Qed.
+Print Assumptions C05_mailbox_terminates.
+
+(* ---------------- stated, not proved ---------------- *)
 
 (* Explicit numbering: delivery safety and deadlock freedom when the source numbers its messages by a
    permutation that fits the capacity (model: same LTS with `Some k` numbers; covered by the
